@@ -119,25 +119,27 @@ def c11_obligations(chk):
     verify(chk, "AS.magnification", OP + ":angularSpectrum", run_mag, post_mag, clause="group.magnification", replay=rp({}), encoding="operator-words", summaries=SUMMARIES, frame=False)
 
     # (4) two-step Fresnel is two chained one-step propagations through the intermediate plane of the statement
-    def run_two(it):
-        common(it)
-        it.ctx.assume(zz != 0)
-        it.ctx.assume(d2 != d1)
-        U = Lin([N, N])
-        m = d2 / d1
-        Dz1 = zz / (1 - m)
-        d1a = wvl * z3.If(Dz1 >= 0, Dz1, -Dz1) / (zr(N) * d1)
-        Dz2 = zz - Dz1
-        two = it.call_repo(OP, "twoStepFresnel", [U, wvl, d1, d2, zz])
-        chain = it.call_repo(OP, "oneStepFresnel", [it.call_repo(OP, "oneStepFresnel", [U, wvl, d1, Dz1]), wvl, d1a, Dz2])
-        return it, two, chain
+    #     (two cases for the sign of the first partial distance, so that |Dz1| is a rational expression in each)
+    for sign in (+1, -1):
+        def run_two(it, sign=sign):
+            common(it)
+            it.ctx.assume(zz != 0)
+            it.ctx.assume(d2 != d1)
+            U = Lin([N, N])
+            m = d2 / d1
+            Dz1 = zz / (1 - m)
+            it.ctx.assume(Dz1 > 0 if sign > 0 else Dz1 < 0)
+            d1a = wvl * (Dz1 if sign > 0 else -Dz1) / (zr(N) * d1)
+            Dz2 = zz - Dz1
+            two = it.call_repo(OP, "twoStepFresnel", [U, wvl, d1, d2, zz])
+            chain = it.call_repo(OP, "oneStepFresnel", [it.call_repo(OP, "oneStepFresnel", [U, wvl, d1, Dz1]), wvl, d1a, Dz2])
+            return it, two, chain
 
-    def post_two(pr):
-        it, two, chain = pr.value
-        return [("two-step=one-step.one-step.%s" % n, f) for n, f in opword.equal_obligations(it, two, chain, it.ctx.valid)]
-    verify(chk, "twoStep=oneStep^2", OP + ":twoStepFresnel,oneStepFresnel", run_two, post_two, clause="agree.twostep-chain", replay=rp({}), encoding="operator-words",
-           summaries=SUMMARIES, frame=False)
-
+        def post_two(pr):
+            it, two, chain = pr.value
+            return [("two-step=one-step.one-step.%s" % n, f) for n, f in opword.equal_obligations(it, two, chain, it.ctx.valid)]
+        verify(chk, "twoStep=oneStep^2[Dz1%s0]" % (">" if sign > 0 else "<"), OP + ":twoStepFresnel,oneStepFresnel", run_two, post_two, clause="agree.twostep-chain", replay=rp({}),
+               encoding="operator-words", summaries=SUMMARIES, frame=False)
 
 def fresnel_spec_word(it, U, dist, spacing_in):
     """the statement's Fresnel integral, discretised for a POSITIVE distance: field at x2 = (k - N/2) * X, X = wvl*dist/(N*spacing_in) > 0,
